@@ -79,8 +79,13 @@ NB(k) == Len(tr[k])
 NW(k, b) == Len(tr[k][b])
 NI(k, b, w) == tr[k][b][w]
 
-RECURSIVE SumOver(_, _)
-SumOver(f, S) == IF S = {} THEN 0 ELSE LET x == CHOOSE y \in S : TRUE IN f[x] + SumOver(f, S \ {x})
+RECURSIVE SumFrom(_, _)
+SumFrom(s, i) == IF i > Len(s) THEN 0 ELSE s[i] + SumFrom(s, i + 1)
+SumSeq(s) == SumFrom(s, 1)                       \* sum of a sequence of integers (linear)
+\* sums over the platform / the trace, written as nested sequence sums
+SumSubs(F(_)) == SumSeq([d \in Devs |-> SumSeq([s \in SMsOf(d) |-> SumSeq([c \in SubsOf(d) |-> F(<<d, s, c>>)])])])
+SumSMs(F(_)) == SumSeq([d \in Devs |-> SumSeq([s \in SMsOf(d) |-> F(<<d, s>>)])])
+SumWarps(kmax, F(_)) == SumSeq([k \in 1..kmax |-> SumSeq([b \in 1..NB(k) |-> SumSeq([w \in 1..NW(k, b) |-> F(<<k, b, w>>)])])])
 
 Remove(s, i) == [j \in 1..(Len(s) - 1) |-> IF j < i THEN s[j] ELSE s[j + 1]]
 Idx(s) == IF FifoOnly THEN {1} \cap DOMAIN s ELSE DOMAIN s
@@ -318,7 +323,10 @@ SubIdle(x) == sub[x].left = 0 /\ sub[x].finished = 0
 
 SubmittedB == {x \in BIds : x[1] <= nextK}
 SubmittedW == {x \in WIds : x[1] <= nextK}
-InstsOf(S) == SumOver([x \in WIds |-> NI(x[1], x[2], x[3])], S)
+InstsSubmitted == SumWarps(nextK, LAMBDA x : NI(x[1], x[2], x[3]))
+WarpsSubmitted == SumWarps(nextK, LAMBDA x : 1)
+InstsHeld == SumSubs(LAMBDA x : sub[x].insts)      \* what Subcore.GetTotalInstsCount adds up to
+WarpsHeld == SumSMs(LAMBDA x : sm[x].warps)        \* what SM.GetTotalWarpsCount adds up to
 
 \* every submitted kernel, block and warp executed exactly once, instruction count conserved,
 \* every unit idle, every kernel reported finished
@@ -330,9 +338,9 @@ AllDone ==
   /\ \A k \in 1..nextK : gotK[k] = 1
   /\ \A x \in SubmittedB : gotB[x] = 1
   /\ \A x \in SubmittedW : gotW[x] = 1
-  /\ executed = InstsOf(SubmittedW)
-  /\ SumOver([x \in SubIds |-> sub[x].insts], SubIds) = InstsOf(SubmittedW)
-  /\ SumOver([x \in SMIds |-> sm[x].warps], SMIds) = Cardinality(SubmittedW)
+  /\ executed = InstsSubmitted
+  /\ InstsHeld = InstsSubmitted
+  /\ WarpsHeld = WarpsSubmitted
   /\ reportedK = nextK
 
 \* the run can only stop when everything is done
@@ -348,10 +356,10 @@ Accounting ==
   /\ \A d \in Devs : gpu[d].unfinished >= 0 /\ gpu[d].finished >= 0
   /\ \A x \in SMIds : sm[x].unfinished >= 0 /\ sm[x].finished >= 0
   /\ \A x \in SubIds : sub[x].left >= 0 /\ sub[x].finished >= 0
-  /\ SumOver([x \in SubIds |-> sub[x].insts], SubIds) = executed + SumOver([x \in SubIds |-> sub[x].left], SubIds)
-  /\ SumOver([x \in SubIds |-> sub[x].insts], SubIds) = InstsOf({x \in WIds : gotW[x] = 1})
-  /\ SumOver([x \in SMIds |-> sm[x].warps], SMIds) = Cardinality({x \in WIds : gotB[<<x[1], x[2]>>] = 1})
-  /\ executed <= InstsOf(SubmittedW)
+  /\ InstsHeld = executed + SumSubs(LAMBDA x : sub[x].left)
+  /\ InstsHeld = SumWarps(Len(tr), LAMBDA x : IF gotW[x] = 1 THEN NI(x[1], x[2], x[3]) ELSE 0)
+  /\ WarpsHeld = SumWarps(Len(tr), LAMBDA x : IF gotB[<<x[1], x[2]>>] = 1 THEN 1 ELSE 0)
+  /\ executed <= InstsSubmitted
 Bounded == /\ \A p \in Ports : Len(out[p]) <= PortCap
            /\ \A p \in Ports : Len(inb[p]) <= PortCap
 \* Quiet is exactly "no simulation step is enabled" (cross-check of the hand-written predicate)
